@@ -316,7 +316,10 @@ func (a *Affiliation) computeTriggersForTypes(lhsType types.Type, rhsType types.
 	// for each method declared in the interface, find its corresponding concrete implementation
 	for i := 0; i < lhsObj.NumMethods(); i++ {
 		interfaceMethod := lhsObj.Method(i)
-		implementedMethodObj, _, _ := types.LookupFieldOrMethod(rhsType, false, rhsObj.Obj().Pkg(), interfaceMethod.Name())
+		// An unexported method name is qualified by the package that declares the interface method, which
+		// is not necessarily the package of the implementing type (e.g., when the method is promoted from
+		// an embedded struct of the interface's package), so the lookup must be done from the former.
+		implementedMethodObj, _, _ := types.LookupFieldOrMethod(rhsType, false, interfaceMethod.Pkg(), interfaceMethod.Name())
 		if implementedMethodObj == nil || !a.conf.IsPkgInScope(interfaceMethod.Pkg()) || !a.conf.IsPkgInScope(implementedMethodObj.Pkg()) {
 			continue
 		}
